@@ -88,9 +88,17 @@ def build_rich(P, names, order, variant):
     for key in _perm(["i1", "i2"], order.get("indicators")):
         inds[key] = ispecs[key]()
     obj = None
+    obj_roles = {}
     if variant == "objective":
-        obj = ps.ObjectiveMinimizeMakespan()
-        obj2 = ps.ObjectiveMinimizeFlowtime()
+        obj_roles["makespan"] = ps.ObjectiveMinimizeMakespan()
+        obj_roles["flowtime"] = ps.ObjectiveMinimizeFlowtime()
+    if variant == "objective_bounded":
+        # two objectives of one direction, one on an indicator with declared bounds; declaration order is a stage
+        ib = ps.IndicatorFromMathExpression(name=n("ib"), expression=tis["T1"].s, bounds=(P.int("ob_lo", ph=0), P.int("ob_hi", ph=3)))
+        iu = ps.IndicatorFromMathExpression(name=n("iu"), expression=tis["T3"].s)
+        ospecs = {"o1": lambda: ps.ObjectiveMaximizeIndicator(target=ib, weight=1), "o2": lambda: ps.ObjectiveMaximizeIndicator(target=iu, weight=2)}
+        for key in _perm(["o1", "o2"], order.get("objectives")):
+            obj_roles[key] = ospecs[key]()
     # --- observables, keyed by role: (key, variable, key of the flag that makes it meaningful or None)
     # the dates of an unscheduled optional task / the choice made for it are existential (DESIGN C14)
     obs = [("horizon", pb._horizon, None)]
@@ -113,8 +121,8 @@ def build_rich(P, names, order, variant):
     for key, ind in inds.items():
         obs.append((f"{key}.value", ind._indicator_variable, None))
     # the optimised quantities are observables too: equal constraint systems over them have equal optima
-    for k, o in enumerate(pb.objectives.values()):
-        obs.append((f"objective{k}.target", o._target, None))
+    for role, o in obj_roles.items():
+        obs.append((f"objective.{role}.target", o._target, None))
     if buf is not None:
         for i, lv in enumerate(buf._buffer_levels):
             obs.append((f"B.level{i}", lv, None))
@@ -184,6 +192,7 @@ def twin_shape(variant, kind, tag, names=None, order=None, noise=None):
         ]
         if kind == "history":
             obs.append(Ob(f"{PROP}/{name}/z3_global_parameters_unchanged", "custom", fn=_params_equal))
+        obs.append(Ob(f"{PROP}/{name}/objective_wiring_is_the_same", "custom", fn=_wiring_equal, replayer="checks.c14:replay_wiring"))
         return obs
 
     sh = Shape(name, build, obligations)
@@ -238,6 +247,100 @@ def _params_equal(ctx, path):
     if diff:
         return {"status": "error", "note": f"z3 global parameters differ after earlier problems: {diff}"}
     return {"status": "unsat", "queries": 0}
+
+
+def _wiring_equal(ctx, path):
+    """what the optimiser is told (direction, declared bounds used for early stops) does not depend on
+    names, declaration order or history"""
+    s1, s2 = ctx.solver1, ctx.solver
+    o1, o2 = s1._objective, s2._objective
+    if (o1 is None) != (o2 is None):
+        return {"status": "sat", "queries": 0, "witness": {"params": {}, "pins": {}, "what": "one twin has an objective, the other none"}}
+    if o1 is None:
+        return {"status": "unsat", "queries": 0}
+    if o1.kind != o2.kind:
+        return {"status": "sat", "queries": 0, "witness": {"params": {}, "pins": {}, "what": f"optimisation direction differs: {o1.kind} vs {o2.kind}"}}
+    b1, b2 = o1._bounds, o2._bounds
+    same = (b1 is None and b2 is None) or (b1 is not None and b2 is not None and all(formula.to_z3(x).eq(formula.to_z3(y)) for x, y in zip(b1, b2)))
+    if not same:
+        base = [formula.to_z3(x) for x in list(path.assume) + list(path.pc)]
+        # parameters for which the problem is feasible and the optimised quantity can pass every bound involved
+        extra = []
+        for b in (b1 or ()) + (b2 or ()):
+            extra += [o1._target > formula.to_z3(b), formula.to_z3(b) >= 0]
+        for attempt in (base + list(ctx.phi1) + extra, base + list(ctx.phi1), base):
+            v, m, _ = formula.solve_shrunk(attempt, 20000)
+            if v == "sat":
+                break
+        params = {n: (formula.val(m, t) if z3.is_expr(t) else t) for n, t in ctx.P.terms.items()} if v == "sat" else {}
+        return {"status": "sat", "queries": 1, "witness": {"params": params, "pins": {}, "what": f"bounds handed to the optimiser differ between the twins: {b1} vs {b2}"}}
+    return {"status": "unsat", "queries": 0}
+
+
+def replay_wiring(desc):
+    """real z3 behind the steering shim of C07 (the first model found is steered onto a bound handed to the
+    optimiser, a legitimate answer of a contract-abiding solver): both twins must end on the same optimum"""
+    import io
+    import contextlib
+    import warnings
+    import processscheduler.solver as pss
+    import symx.harness as H
+    from checks.c07 import SteeredSolver
+
+    shape = H.get_shape(desc["module"], desc["shape"])
+    w = desc["witness"]
+    tw = shape.twin
+    builder = BUILDERS.get(tw["variant"], build_rich)
+
+    def run(names, order):
+        log, holder = [], {}
+
+        class Proxy:
+            def _wrap(self, real):
+                def plan_target():
+                    return holder["solver"]._objective._target if holder["solver"]._objective is not None else None
+                b = holder["solver"]._objective._bounds if holder["solver"]._objective is not None else None
+                first = None
+                if b is not None:
+                    first = b[1] if holder["solver"]._objective.kind == "maximize" else b[0]
+                return SteeredSolver(real, (["sat"] + [None] * 8, [first]), plan_target, log)
+
+            def Solver(self, *a, **kw):
+                return self._wrap(z3.Solver(*a, **kw))
+
+            def SolverFor(self, *a, **kw):
+                return self._wrap(z3.SolverFor(*a, **kw))
+
+            def __getattr__(self, n):
+                return getattr(z3, n)
+
+        with contextlib.redirect_stdout(io.StringIO()), warnings.catch_warnings():
+            warnings.simplefilter("ignore")
+            P = engine.Params("conc", values=w.get("params") or {})
+            pb, obs = builder(P, names, order, tw["variant"])
+            solver = ps.SchedulingSolver(problem=pb)
+            holder["solver"] = solver
+            solver.initialize()
+            saved = pss.z3
+            pss.z3 = Proxy()
+            # initialize() already created a genuine solver: wrap it
+            solver._solver = Proxy()._wrap(solver._solver)
+            try:
+                r = solver.solve()
+            finally:
+                pss.z3 = saved
+        engine.reset_z3_globals()
+        return (r.indicators.get("EquivalentIndicator") if r else None), log
+
+    nm2 = dict(CANON)
+    nm2.update(tw["names"] or {})
+    v1, l1 = run(dict(CANON), {})
+    v2, l2 = run(nm2, tw["order"] or {})
+    print(f"replay: optimum of the canonical build {v1} {l1[:2]}, of the twin {v2} {l2[:2]}")
+    if v1 != v2:
+        print("CONFIRMED: the optimal objective value reported depends on names / declaration order")
+        return 1
+    return 0
 
 
 def replay_twins(desc):
@@ -342,6 +445,9 @@ def shapes(tier):
     for p in itertools.permutations(range(3)):
         if list(p) != [0, 1, 2]:
             out.append(twin_shape("collision", "permute", f"tasks_{''.join(map(str, p))}", order={"tasks": list(p)}))
+    out.append(twin_shape("objective_bounded", "permute", "objectives_10", order={"objectives": [1, 0]}))
+    out.append(twin_shape("objective_bounded", "permute", "objectives_10_tasks_210", order={"objectives": [1, 0], "tasks": [2, 1, 0]}))
+    out.append(twin_shape("objective_bounded", "rename", "reversed", names=NAME_POOLS["reversed"]))
     noises = {
         "one_solved": [dict()],
         "debug_then_parallel": [dict(debug=True), dict(parallel=True)],
